@@ -10,7 +10,7 @@ META = {
     "rule": "X1 Resolver::values_names_in_scope (what completion offers) and Resolver::resolve_name (what a name resolves to) agree: same "
             "scope order, same ModuleDefId -> ResolveResult table, first occurrence wins; X2 the members offered after `module.` are "
             "filtered on visibility; X3 the replacement range is the identifier/keyword token under the cursor or the empty range at the "
-            "cursor. One obligation per table row / clause. X4 common fields are the intersection; X5/X6 imports are offered under the name they bind; X7 the visibility a constructor is declared with depends on the `opaque` modifier of its type. X8/X9 = C11 H6/H7. X11 = C05 S7/S8 (an imported item is bound as a value only by a value import, as a type only by `type X`). X10 every constructor that becomes a variant contributes its field set to the common-fields intersection.",
+            "cursor. One obligation per table row / clause. X4 common fields are the intersection; X5/X6 imports are offered under the name they bind; X7 the visibility a constructor is declared with depends on the `opaque` modifier of its type. X8/X9 = C11 H6/H7. X12 the fields offered after `value.` depend on the `opaque` modifier of the value's type. X11 = C05 S7/S8 (an imported item is bound as a value only by a value import, as a type only by `type X`). X10 every constructor that becomes a variant contributes its field set to the common-fields intersection.",
     "explanation": "If the enumeration offered by completion and the lookup used by go-to-definition are two implementations of one "
                    "scope walk, then every offered name resolves and nothing resolvable is left out only if the two agree on order and "
                    "on the kinds of module items they treat as values. That agreement is decided from the MIR; the exact set for every "
@@ -153,6 +153,7 @@ def run(F, res, tier):
     from rules import c11 as _c11
     _c11.value_equality_rules(F, res, rule="X8", rule2="X9")
     every_constructor_is_in_the_intersection(F, res)
+    accessors_of_opaque_types_stay_private(F, res)
     # the value names offered at an expression position are ModuleScope.values: a type import must not bind a constructor there
     from rules import c05 as _c05
     _c05.namespaces(F, res, rule7="X11", rule8="X11")
@@ -377,3 +378,32 @@ def every_constructor_is_in_the_intersection(F, res, rule="X10"):
     res.ob(rule, "common-fields/every-variant-contributes", "every constructor that becomes a variant contributes its set of labelled fields to the "
            "intersection (a constructor without a field list contributes the empty set)", bool(allocs) and bool(pushes) and not ways, where=f0.loc(),
            how="alloc_variant sites %d, pushes of a field set %d, iterations that allocate a variant without pushing: %d" % (len(allocs), len(pushes), len(ways)))
+
+
+def accessors_of_opaque_types_stay_private(F, res, rule="X12"):
+    """X12: `private items of other modules are never offered`. The record accessors of an `opaque` type are private to the
+    module that defines it (X7 states the same for its constructors). In complete_dot the field items - CompletionItem with kind
+    Field - are computed from AdtData.opaque: whether a field is offered depends (data or control) on the type's `opaque` flag.
+    (That the dependence has the right sense - offered when not opaque or in the defining module - is not decided.)"""
+    f = F.fn("ide::ide::completion::complete_dot")
+    d = FL.Defs(f)
+    n, bad = 0, []
+    for b, i, s in f.stmts():
+        rv = s.get("rv") or {}
+        if rv.get("k") != "agg" or not (rv.get("adt") or "").endswith("CompletionItem"):
+            continue
+        kind = rv["ops"][rv["fields"].index("kind")]
+        kv = FL.const_variant(kind.get("k")) if isinstance(kind, dict) and kind.get("k") else None
+        if kv is None:
+            o = d.origin_op(kind)
+            kv = FL.const_variant(o.get("c")) if o.get("k") == "const" else (o.get("rv", {}).get("variant") if o.get("k") == "agg" else None)
+        if kv != "Field":
+            continue
+        n += 1
+        label = rv["ops"][rv["fields"].index("label")]
+        feeding = FL.fields_feeding(F, f, d, label, "AdtData", use_bb=b)
+        if "opaque" not in {str(x).rsplit(".", 1)[-1] for x in feeding}:
+            bad.append("line %s" % s.get("ln"))
+    res.ob(rule, "complete_dot/fields-of-opaque-types", "whether `value.` offers the fields of a type depends on the type's `opaque` modifier (the accessors "
+           "of an opaque type are private to its module)", n > 0 and not bad, where=f.loc(),
+           how="Field items built: %d; not depending on AdtData.opaque: %s" % (n, bad))
